@@ -32,7 +32,11 @@ def parse_module(E, extra_derives=(), std_derives=("Debug", "Clone", "PartialEq"
     src += ("pub fn run(o: &mut Out, ins: &std::collections::HashMap<u32, Vec<String>>, seed: u64) {\n"
             "    let empty: Vec<String> = Vec::new();\n"
             "    let xs = ins.get(&%d).unwrap_or(&empty);\n"
-            "    parse_batch::<%s, %s>(o, %d, xs);\n}\n" % (E["id"], D.inst(E), err, E["id"]))
+            "    parse_batch::<%s, %s>(o, %d, xs);\n" % (E["id"], D.inst(E), err, E["id"]))
+    if not E["perr"]:
+        # the error value of one failed parse, observed through Display / Debug / std::error::Error
+        src += "    perr_event::<%s, %s>(o, %d, \"\\u{1}no such spelling\\u{1}\");\n" % (D.inst(E), err, E["id"])
+    src += "}\n"
     return src
 
 
